@@ -301,6 +301,20 @@ def setflat(dom, a, idx, v):
     return None
 
 
+def getflat(dom, a, idx):
+    """a.flat[idx] for a concrete int / slice: a scalar or a 1-D copy"""
+    nd = as_nd(dom, a)
+    flat = list(nd.flat)
+    if isinstance(idx, int):
+        if idx < -len(flat) or idx >= len(flat):
+            raise PyExc(dom.make_exc("IndexError", ("index out of bounds",)))
+        return S(dom, flat[idx])
+    if isinstance(idx, slice) and all(isinstance(t, (int, type(None))) for t in (idx.start, idx.stop, idx.step)):
+        sel = flat[idx]
+        return out(dom, ND((len(sel),), sel))
+    raise Unsupported("ndarray.flat subscript")
+
+
 def iter_rows(dom, a):
     nd = as_nd(dom, a)
     if nd.ndim == 1:
